@@ -59,6 +59,117 @@ def matrix_assignments(fn, name, env, sp, dim):
     return M, n
 
 
+def rule_callsite_semantics(prog, r4, sp):
+    """set_dihedral_angle and rotate_tetrahedral are evaluated on object models whose coordinates are symbols; the rotation
+    primitive is kept uninterpreted (it is decided by R2).  What is handed to it and what is stored back is compared, as
+    polynomial identities, with 'rotate the far atoms about b->c, relative to b, by requested - current'."""
+    from ..guards import Flow
+    from ..objinterp import ObjRunner
+
+    def atom(name):
+        x, y, z = sp.symbols(f"{name}_x {name}_y {name}_z")
+        return {"__class__": "Atom", "name": name, "x": x, "y": y, "z": z, "bonds": [], "cell": "C",
+                "__props__": {"coords": lambda a: [a["x"], a["y"], a["z"]]}}
+
+    calls = {}
+
+    def mk_hook(res, cells_log):
+        def extra(runner, interp, call, args, kw):
+            nm = U(call.func)
+            if nm in ("np.array", "numpy.array", "np.asarray") and args:
+                return sp.Matrix(list(args[0]))
+            if nm.endswith("qchichange") and len(args) == 3:
+                k = len(calls.setdefault("q", []))
+                out = [[sp.Symbol(f"R{k}_{j}_{i}") for i in range(3)] for j in range(len(list(args[1])))]
+                calls["q"].append((args[0], [list(p) for p in args[1]], args[2], out))
+                return out
+            if nm.endswith("util.dihedral") or nm == "dihedral":
+                flat = list(args[0]) if len(args) == 1 else list(args)
+                calls.setdefault("d", []).append([list(c) for c in flat])
+                return sp.Symbol("measured")
+            if isinstance(call.func, ast.Attribute) and call.func.attr in ("remove_cell", "add_cell"):
+                cells_log.append((call.func.attr, args[0]["name"] if args and isinstance(args[0], dict) else "?"))
+                return None
+            if isinstance(call.func, ast.Attribute):
+                recv = None
+                try:
+                    recv = interp.ev(call.func.value)
+                except AnalysisError:
+                    return NotImplemented
+                if recv is res:
+                    if call.func.attr == "has_atom":
+                        return args[0] in res["map"]
+                    if call.func.attr == "get_atom":
+                        return res["map"].get(args[0])
+                    if call.func.attr == "get_moveable_names":
+                        return list(res["__far__"])
+            return NotImplemented
+        return extra
+
+    # ---- set_dihedral_angle on a four-atom torsion a-b-c-d with a second far atom e
+    sdi = prog.func("debump.py", "Debump.set_dihedral_angle")
+    w4 = f"pdb2pqr/debump.py:{sdi.node.lineno} (Debump.set_dihedral_angle)"
+    A = {n: atom(n) for n in "abcde"}
+    old, req = sp.symbols("current requested")
+    res = {"__class__": "Residue", "map": A, "dihedrals": [sp.Symbol("other"), old], "__far__": ["d", "e"],
+           "reference": {"__class__": "DefinitionResidue", "dihedrals": ["x x x x", "a b c d"]}}
+    log = []
+    run = ObjRunner(prog, "debump.py", extra_hook=mk_hook(res, log))
+    deb = {"__class__": "Debump", "cells": {"__class__": "Cells"}}
+    before = {n: list(A[n]["__props__"]["coords"](A[n])) for n in A}
+    try:
+        run.call(deb, "set_dihedral_angle", res, 1, req)
+    except Flow as fl:
+        r4.bad("frame|set_dihedral_angle", f"set_dihedral_angle stops with {fl.value} on the model torsion", w4)
+        return
+    q = calls.get("q", [])
+    if len(q) != 1:
+        raise AnalysisError(f"set_dihedral_angle: {len(q)} rotation calls on the model, expected one")
+    axis, pts, ang, out = q[0]
+
+    def same(u, v):
+        return len(list(u)) == len(list(v)) and all(sp.expand(x - y) == 0 for x, y in zip(list(u), list(v)))
+
+    b, c = before["b"], before["c"]
+    r4.add("axis|set_dihedral_angle", same(axis, [c[i] - b[i] for i in range(3)]),
+           f"rotation axis handed over: {list(axis)}; the bond b->c is {[c[i] - b[i] for i in range(3)]}", w4)
+    okp = len(pts) == 2 and all(same(pts[k], [before[n][i] - b[i] for i in range(3)]) for k, n in enumerate("de"))
+    r4.add("origin|set_dihedral_angle", okp and all(same([A[n]["x"], A[n]["y"], A[n]["z"]], [out[k][i] + b[i] for i in range(3)]) for k, n in enumerate("de")),
+           "the far atoms are handed over relative to atom b and the rotated offsets are stored back with b added, atom by atom"
+           if okp else f"points handed to the rotation: {pts}", w4)
+    r4.add("angle|set_dihedral_angle", sp.expand(ang - (req - old)) == 0, f"rotation angle {ang} (requested - current = {req - old})", w4)
+    untouched = all(same([A[n]["x"], A[n]["y"], A[n]["z"]], before[n]) for n in "abc")
+    r4.add("near-side-fixed|set_dihedral_angle", untouched, "atoms a, b, c keep their coordinates", w4)
+    d = calls.get("d", [])
+    now = [[A[n]["x"], A[n]["y"], A[n]["z"]] for n in "abcd"]
+    okd = len(d) == 1 and all(same(d[0][k], now[k]) for k in range(4)) and res["dihedrals"][1] == sp.Symbol("measured")
+    r4.add("cache-refreshed|set_dihedral_angle", okd,
+           "the stored torsion is re-measured from the four atoms' coordinates AFTER the move" if okd else
+           f"the stored torsion becomes {res['dihedrals'][1]}, measured from {d[0] if d else 'nothing'}: not the current coordinates of a, b, c, d "
+           "(the next call rotates by requested - stale)", w4)
+    # ---- rotate_tetrahedral(atom1, atom2, angle): neighbours of atom2 other than atom1 turn about atom1->atom2
+    calls.clear()
+    rti = prog.func("residue.py", "Residue.rotate_tetrahedral")
+    w5 = f"pdb2pqr/residue.py:{rti.node.lineno} (Residue.rotate_tetrahedral)"
+    B = {n: atom(n) for n in ("p", "q", "h1", "h2")}
+    B["q"]["bonds"] = [B["p"], B["h1"], B["h2"]]
+    bef = {n: [B[n]["x"], B[n]["y"], B[n]["z"]] for n in B}
+    run2 = ObjRunner(prog, "residue.py", extra_hook=mk_hook({"map": B, "__far__": []}, []))
+    ang2 = sp.Symbol("angle")
+    try:
+        run2.call({"__class__": "Residue"}, "rotate_tetrahedral", B["p"], B["q"], ang2)
+    except Flow as fl:
+        r4.bad("frame|rotate_tetrahedral", f"rotate_tetrahedral stops with {fl.value} on the model", w5)
+        return
+    q = calls.get("q", [])
+    okt = len(q) == 1 and same(q[0][0], [bef["q"][i] - bef["p"][i] for i in range(3)]) and sp.expand(q[0][2] - ang2) == 0 \
+        and len(q[0][1]) == 2 and all(same(q[0][1][k], [bef[n][i] - bef["p"][i] for i in range(3)]) for k, n in enumerate(("h1", "h2"))) \
+        and all(same([B[n]["x"], B[n]["y"], B[n]["z"]], [q[0][3][k][i] + bef["p"][i] for i in range(3)]) for k, n in enumerate(("h1", "h2"))) \
+        and all(same([B[n]["x"], B[n]["y"], B[n]["z"]], bef[n]) for n in ("p", "q"))
+    r4.add("frame|rotate_tetrahedral", okt, "axis = atom2 - atom1, the other neighbours of atom2 are rotated relative to atom1 and stored back with "
+           "atom1 added; atom1 and atom2 stay", w5)
+
+
 def check(prog, rep):
     try:
         import sympy as sp
@@ -175,37 +286,7 @@ def check(prog, rep):
 
     # ------------------------------------------------------------------ R4
     r4 = rep.rule("R4", "call sites rotate about bond b->c relative to b; the measured torsion uses the same sign convention", floor=4)
-    import re
-    V = r"[A-Za-z_][A-Za-z_0-9]*"
-    sd = prog.func("debump.py", "Debump.set_dihedral_angle").node
-    t = U(sd)
-    w4 = f"pdb2pqr/debump.py:{sd.lineno} (Debump.set_dihedral_angle)"
-    m = re.search(rf"(?P<new>{V}) = quat\.qchichange\((?P<axis>{V}), (?P<mv>{V}), (?P<ang>{V})\)", t)
-    if not m:
-        raise AnalysisError("set_dihedral_angle: call to quat.qchichange(axis, offsets, angle) not found")
-    ax, mv, ang, new = m["axis"], m["mv"], m["ang"], m["new"]
-    m2 = re.search(rf"{ax} = util\.subtract\((?P<L>{V})\[2\], (?P=L)\[1\]\)", t)
-    r4.add("axis|set_dihedral_angle", bool(m2), f"axis {ax} = atom3 - atom2" if m2 else f"axis {ax} is not coordinates[2] - coordinates[1]", w4)
-    Lname = m2["L"] if m2 else V
-    okl = bool(re.search(rf"for (?P<a>{V}) in (?P<names>{V}):\n\s+if residue\.has_atom\((?P=a)\):\n\s+{Lname}\.append\(residue\.get_atom\((?P=a)\)\.coords\)", t)) \
-        and bool(re.search(rf"(?P<names>{V}) = residue\.reference\.dihedrals\[anglenum\]\.split\(\)", t))
-    r4.add("coords-in-dihedral-order|set_dihedral_angle", okl, "the coordinate list holds the four dihedral atoms in the order the topology names them", w4)
-    okm = bool(re.search(rf"{mv}\.append\(util\.subtract\({V}\.coords, {Lname}\[1\]\)\)", t)) and \
-        all(re.search(rf"{V}\.{a} = {new}\[{V}\]\[{i}\] \+ {Lname}\[1\]\[{i}\]", t) for i, a in enumerate("xyz"))
-    r4.add("origin|set_dihedral_angle", okm, "offsets are taken relative to atom2 and atom2 is added back", w4)
-    params = [a.arg for a in sd.args.args]
-    oka = bool(re.search(rf"{ang} = {params[3]} - (?P<old>{V})", t)) and bool(re.search(rf"{V} = residue\.dihedrals\[{params[2]}\]", t))
-    r4.add("angle|set_dihedral_angle", oka, "rotation angle = requested - current", w4)
-    rt = prog.func("residue.py", "Residue.rotate_tetrahedral").node
-    t2 = U(rt)
-    w5 = f"pdb2pqr/residue.py:{rt.lineno} (Residue.rotate_tetrahedral)"
-    rp = [a.arg for a in rt.args.args]
-    a1, a2, an = rp[1], rp[2], rp[3]
-    m3 = re.search(rf"(?P<new>{V}) = quat\.qchichange\((?P<axis>{V}), (?P<mv>{V}), {an}\)", t2)
-    okt = bool(m3) and bool(re.search(rf"{m3['axis']} = util\.subtract\({a2}\.coords, {a1}\.coords\)", t2)) and \
-        bool(re.search(rf"{m3['mv']}\.append\(util\.subtract\({V}\.coords, {a1}\.coords\)\)", t2)) and \
-        all(re.search(rf"{V}\.{a} = {m3['new']}\[{V}\]\[{i}\] \+ {a1}\.{a}", t2) for i, a in enumerate("xyz")) if m3 else False
-    r4.add("frame|rotate_tetrahedral", okt, "axis = atom2 - atom1, offsets relative to atom1, atom1 added back", w5)
+    rule_callsite_semantics(prog, r4, sp)
     sub = prog.func("utilities.py", "subtract").node
     r4.add("subtract-order", _subtract_ok(sub), "utilities.subtract(a, b) returns a - b component-wise", f"pdb2pqr/utilities.py:{sub.lineno} (subtract)")
     # dihedral(): evaluate its vector algebra on the canonical frame p2=0, p3=z, p1=x, p4=(cos f, sin f, 1)
